@@ -271,6 +271,8 @@ def gen_value(ty, rng):
         return None if rng.random() < 0.3 else gen_value('Q', rng)
     if ty == 'OZ':
         return None if rng.random() < 0.3 else gen_value('Z', rng)
+    if ty == 'OB':
+        return rng.choice([None, True, False])
     if ty == 'LS':
         return [rng.choice(STR_POOL) for _ in range(rng.choice([0, 0, 1, 2, 3]))]
     if ty == 'LZ':
@@ -289,7 +291,7 @@ def coq_lit(v, ty):
         return 'true' if v else 'false'
     if ty == 'S':
         return T.slit(v)
-    if ty in ('OQ', 'OZ'):
+    if ty in ('OQ', 'OZ', 'OB'):
         return 'None' if v is None else '(Some %s)' % coq_lit(v, ty[1])
     if ty == 'LS':
         return '[%s]' % '; '.join(T.slit(x) for x in v) if v else '(@nil string)'
@@ -325,7 +327,7 @@ def canon(v, ty):
         if isinstance(v, str):
             return v
         raise ValueError('not a str')
-    if ty in ('OQ', 'OZ'):
+    if ty in ('OQ', 'OZ', 'OB'):
         if v is None or (isinstance(v, float) and math.isnan(v)):
             return None
         return canon(v, ty[1])
@@ -349,7 +351,7 @@ def eq_term(term, exp, ty):
         e = coq_lit(exp, 'Q')
         scale = max(Fraction(1), abs(Fraction(exp)))
         return '(Qle_bool (Qabs (%s - %s)) (%s * %s))' % (term, e, tol, coq_lit(scale, 'Q'))
-    if ty in ('OQ', 'OZ'):
+    if ty in ('OQ', 'OZ', 'OB'):
         if exp is None:
             return '(match %s with None => true | Some _ => false end)' % term
         return '(match %s with Some x_ => %s | None => false end)' % (term, eq_term('x_', exp, ty[1]))
@@ -361,6 +363,8 @@ def eq_term(term, exp, ty):
 
 
 def run_spec(modname, rel, sp, tree, tr, rng, oracle_names):
+    if sp.get('tries') or sp.get('row_filter') or sp.get('columns'):
+        raise NotExecutable('guarded call / row filter / column reading (tries, row_filter, columns)')
     if sp.get('element') or sp.get('attr_stores') or sp.get('slice_views'):
         # single-element readings of slice stores / attribute stores / table slices: the raw Python works on whole
         # arrays and objects, which have no scalar stand-in here
@@ -377,7 +381,12 @@ def run_spec(modname, rel, sp, tree, tr, rng, oracle_names):
         plist.append((nk, ty))
     if any(ty == 'Y' for _, ty in plist) and not sp.get('yields'):
         raise NotExecutable('Y parameter without yields')
-    keys = {k: mangle(k) for k, _ in plist}
+    keys = {}
+    for k, _ in plist:
+        m = mangle(k)
+        while m in keys.values():
+            m += '_'
+        keys[k] = m
     carried = [(ast.unparse(ast.parse(c, mode='eval').body), t) for c, t in sp.get('carried', [])]
     returns = [ast.unparse(ast.parse(r, mode='eval').body) for r in sp.get('returns', [])]
     for c, _ in carried:
@@ -437,7 +446,7 @@ def run_spec(modname, rel, sp, tree, tr, rng, oracle_names):
     pre = []
     for k, t, term in sp.get('init', []):
         nk = ast.unparse(ast.parse(k, mode='eval').body)
-        val = {'""%string': "''", '(inject_Z 0)': '0.0', '0': '0', 'None': 'None'}.get(term)
+        val = {'""%string': "''", '(inject_Z 0)': '0.0', '0': '0', 'None': 'None', 'false': 'False', 'true': 'True'}.get(term)
         if val is None:
             raise NotExecutable('init term %s' % term)
         pre.append(ast.parse('%s = %s' % (keys.get(nk, nk if nk.isidentifier() else mangle(nk)), val)).body[0])
